@@ -57,8 +57,20 @@ def write_read(model, transport, f_replace, tmpdir, name="m.xml"):
 
 
 def _norm_annotation(a):
-    # a single identifier may be stored as a string or as a one-element list
-    return {k: (v[0] if isinstance(v, list) and len(v) == 1 else v) for k, v in a.items()} if isinstance(a, dict) else a
+    # a (qualifier, identifier) pair stands for its identifier (the reader returns identifiers only: the qualifier is
+    # outside what the model classes compare); a single identifier may be stored as a string or as a one-element list
+    if not isinstance(a, dict):
+        return a
+    from cobra.io.sbml import QUALIFIER_TYPES
+
+    out = {}
+    for k, v in a.items():
+        if isinstance(v, list):
+            v = [x[1] if isinstance(x, list) and len(x) == 2 and x[0] in QUALIFIER_TYPES else x for x in v]
+            if len(v) == 1:
+                v = v[0]
+        out[k] = v
+    return out
 
 
 def sbml_view(model):
